@@ -244,6 +244,20 @@ class Executor:
                 tgt = n.targets[0] if isinstance(n, ast.Assign) else n.target
                 if isinstance(tgt, ast.Name) and tgt.id == name and n.value is not None and isinstance(n.value, ast.Constant):
                     return self.lift(n.value.value) if not isinstance(n.value.value, str) else n.value.value
+                if isinstance(tgt, ast.Name) and tgt.id == name and n.value is not None and isinstance(n.value, (ast.Dict, ast.List, ast.Tuple, ast.Call)):
+                    # a module-level container / object: evaluated ONCE, at module initialisation (objects made here are shared
+                    # by every later call -- `module_init` lets contracts tell them from objects created during the call)
+                    cache = st.ghost.setdefault("module_values", {})
+                    if name not in cache:
+                        self.module_init = True
+                        try:
+                            res = self.ev(n.value, st)
+                        finally:
+                            self.module_init = False
+                        if len(res) != 1 or isinstance(res[0][0], Raised):
+                            raise Unsupported(f"module-level value {name} forks or raises")
+                        cache[name] = res[0][0]
+                    return cache[name]
         raise Unsupported(f"unknown name {name}")
 
     def ev_Name(self, e, st):
